@@ -479,17 +479,25 @@ Definition tally_vals (vs : list vinfo) (a : acc4) : acc4 :=
 
 Record verdict := { passes : bool; burns : bool; tres : tallyres; q_used : Z }.
 
-Definition tally (P : params) (kf : keyfun) (cust : list (Z * cparams)) (stk : staking) (p : proposal) : verdict :=
+(* both loops of Tally: the accumulated option powers and the total voting power *)
+Definition tally_acc (stk : staking) (p : proposal) : acc4 :=
   let vs0 := map (fun v => let '(op, b, sh) := v in
                            {| v_op := op; v_bonded := b; v_shares := sh; v_deduct := 0; v_vote := [] |})
                  (st_vals stk) in
   let '(vs, a1) := fold_left (tally_vote stk) (p_votes p) (vs0, acc0) in
-  let a := tally_vals vs a1 in
+  tally_vals vs a1.
+
+(* percentVoting *)
+Definition participation (stk : staking) (p : proposal) : Z :=
+  dec_quo (a_total (tally_acc stk p)) (dec_of_int (st_total_bonded stk)).
+
+Definition tally (P : params) (kf : keyfun) (cust : list (Z * cparams)) (stk : staking) (p : proposal) : verdict :=
+  let a := tally_acc stk p in
   let tr := {| t_yes := dec_trunc_int (a_yes a); t_abstain := dec_trunc_int (a_abstain a);
                t_no := dec_trunc_int (a_no a); t_veto := dec_trunc_int (a_veto a) |} in
   let q := quorum_for P kf cust p in
   if st_total_bonded stk =? 0 then {| passes := false; burns := false; tres := tr; q_used := q |}
-  else if dec_quo (a_total a) (dec_of_int (st_total_bonded stk)) <? q
+  else if participation stk p <? q
   then {| passes := false; burns := burn_quorum P; tres := tr; q_used := q |}
   else if a_total a - a_abstain a =? 0 then {| passes := false; burns := false; tres := tr; q_used := q |}
   else if veto_threshold P <? dec_quo (a_veto a) (a_total a)
@@ -647,7 +655,9 @@ Definition step (P : params) (kf : keyfun) (s : state) (o : op) : result * state
   | OSubmit now proposer ms amt expedited valid bad_denom =>
       let '(r, s') := submit P kf now s proposer ms amt expedited valid bad_denom in (r, s', [])
   | ODeposit now pid dep amt bad_denom =>
-      if negb (0 <? amt) then (RErr EInvalid, s, [])
+      (* validateDeposit: the coins must be valid and positive; a deposit made only of another
+         denomination (amt = 0, bad_denom) passes it and is refused by the denomination check *)
+      if (amt <? 0) || ((amt =? 0) && negb bad_denom) then (RErr EInvalid, s, [])
       else let '(r, s') := add_deposit P kf now s pid dep amt bad_denom in (r, s', [])
   | OVote pid voter opts weighted => let '(r, s') := vote s pid voter opts weighted in (r, s', [])
   | OCancel now pid proposer => cancel P now s pid proposer
